@@ -12,6 +12,38 @@ func init() {
 	// C20 (the deterministic part): an application print while the user is editing
 	register(&prop{id: "C20",
 		gen: func(r *rand.Rand) Case {
+			if r.Intn(6) == 0 {
+				// the event arrives while a completion candidate is only virtually inserted in the line (TAB pressed, the
+				// menu open), or while an incremental search shows a match: the keys that follow give what they give
+				// without the event (second session: the same keys, no event)
+				kind := []string{"printf", "resize"}[r.Intn(2)]
+				text := "async message"
+				if kind == "resize" {
+					text = fmt.Sprint([]int{40, 61, 33}[r.Intn(3)])
+				}
+				var keys []string
+				sp := Spec{Prompt: "> ", Mode: "emacs", Runs: 1, Width: 80, Height: 24, Patience: 5, History: []string{"echo alpha", "echo beta", "ls"},
+					Completer: []Cand{{Value: "foobar"}, {Value: "foobaz"}, {Value: "fooqux"}, {Value: "other"}}}
+				how := "menu"
+				if r.Intn(3) == 0 {
+					how = "isearch"
+					keys = []string{"\x12", "e", "c", "h"}
+				} else {
+					keys = []string{"f", "o", "\t"}
+					if r.Intn(2) == 0 {
+						keys = append(keys, "\t")
+					}
+				}
+				at := len(keys)
+				keys = append(keys, [][]string{{"\r"}, {"x", "\r"}, {" ", "y", "\r"}, {"\r", "\r"}}[r.Intn(4)]...)
+				if how == "isearch" {
+					keys = append(keys, "\r")
+				}
+				plain := sp
+				sp.Async = []Async{{At: at, Kind: kind, Text: text}}
+				sp.Chunks, plain.Chunks = hexChunks(keys), hexChunks(keys)
+				return Case{Specs: []Spec{sp, plain}, Class: kind + "/during-" + how, Meta: map[string]string{"kind": kind, "part": "during", "how": how, "at": fmt.Sprint(at), "text": text}}
+			}
 			w := []int{80, 40, 20}[r.Intn(3)]
 			typed := randCells(r, "ascii", 1+r.Intn(2*w))
 			at := 1 + r.Intn(len(typed))
@@ -52,6 +84,17 @@ func init() {
 			res := tr.Results[0]
 			if res.Panic != "" {
 				return []Finding{{"C20", "panic/" + c.Meta["kind"], res.Panic + " at " + res.Site, c}}
+			}
+			if c.Meta["part"] == "during" {
+				if len(trs) < 2 || trs[1].Hang || len(trs[1].Results) == 0 || trs[1].Results[0].Panic != "" {
+					stat("skipped: the session without the event did not return")
+					return nil
+				}
+				stat("decided: event during " + c.Meta["how"])
+				if ref := trs[1].Results[0]; res.Line != ref.Line || res.Err != ref.Err {
+					return []Finding{{"C20", "edit-broken/" + c.Meta["kind"] + "/during-" + c.Meta["how"], fmt.Sprintf("keys %q with a %s (%q) after key %s: returned %q err=%q; the same keys without the event return %q err=%q", unhex(c.Specs[0].Chunks), c.Meta["kind"], c.Meta["text"], c.Meta["at"], res.Line, res.Err, ref.Line, ref.Err), c}}
+				}
+				return nil
 			}
 			stat("decided")
 			var fs []Finding
